@@ -458,3 +458,7 @@ def run(ctx):
     hs_ = instance.handlers(ct)
     ctx.check(len(cms) == 4 * len(ir.endpoints) and len(hs_) == 4 * len(ir.endpoints), "R3.3", "conjure_test", "instance|services", f"compiled client methods {len(cms)} / handlers {len(hs_)} for {len(ir.endpoints)} endpoints x 2 flavours x 2 configs",
               instance=f"{len(cms)} client methods and {len(hs_)} handlers compiled")
+    # ---------------- R3.11 generation terminates: the named-type log-safety iteration settles (decided by the C08 module, which
+    # knows the memo cell and the per-type rule)
+    from . import c08 as _c08
+    ctx.include(_c08, {"R8.7"}, "R3.11", "code generation must terminate for every valid definition")
